@@ -10,6 +10,7 @@ import Proofs.C02Ext
 import Proofs.C02ExtReplace
 import Proofs.C02Refuse
 import Proofs.C02Positional
+import MongoModel.FindModify
 
 namespace MongoModel.Props.C02
 open MongoModel MongoModel.Spec
@@ -828,6 +829,40 @@ example : okIs (applyUpdate (.doc [("a", .doc [("$elemMatch", .doc [("k", .int 2
      | .error .writeErr => true | _ => false) = true := by
   decide +kernel
 
+/-- **A positional entry reads only the field its path starts with** — the counterpart of
+    `entry_reads_only_its_fields` for `{op: {"f.$…": v}}` with `op` one of `$set $unset $inc $min
+    $max $pop $currentDate`, or `$setOnInsert` on an insert (`posFieldsOp`), whatever the query and
+    whatever the path behind `f`: on two documents (without duplicate keys) holding the same value
+    under `f` the entry fails alike, or succeeds on both and leaves the same value under `f`.  With
+    `untouched_fields` (nothing else is written) the entry neither reads nor writes anything but
+    `f`.  (The whole-update theorems below `update_is_pointwise` are stated for updates without
+    positional keys: behind the first positional key the code carries the container it reached
+    from entry to entry — finding `positional-carried-container` — so entries are not
+    independent.) -/
+theorem positional_entry_reads_only_its_field (spec now : Val) (wi : Bool) (op key : String)
+    (v : Val) (u : Updater) (hop : posFieldsOp op wi = some u) (hdol : hasDollarPart key = true)
+    (fs gs : Fields) (hk : (dkeys fs).Nodup) (hk' : (dkeys gs).Nodup)
+    (hag : dget (headOf key) fs = dget (headOf key) gs) :
+    (∀ err, applyUpdate spec (.doc [(op, .doc [(key, v)])]) now wi (.doc fs) = .error err →
+      applyUpdate spec (.doc [(op, .doc [(key, v)])]) now wi (.doc gs) = .error err) ∧
+    (∀ fs', applyUpdate spec (.doc [(op, .doc [(key, v)])]) now wi (.doc fs) = .ok (.doc fs') →
+      ∃ gs', applyUpdate spec (.doc [(op, .doc [(key, v)])]) now wi (.doc gs) = .ok (.doc gs') ∧
+        dget (headOf key) fs' = dget (headOf key) gs') :=
+  Proofs.C02.positional_entry_reads_only_its_field spec now wi op key v u hop hdol fs gs hk hk' hag
+
+/-- non-vacuity: `$inc` through `a.$.v` on the example and on a document that shares nothing with
+    it but `a`: both succeed and leave the same `a` -/
+example :
+    let gs : Fields := [("a", .arr exXs), ("_id", .int 2), ("z", .arr [])]
+    posFieldsOp "$inc" false = some .inc ∧ posFieldsOp "$setOnInsert" true = some .set ∧
+    posFieldsOp "$setOnInsert" false = none ∧ posFieldsOp "$push" false = none ∧
+    hasDollarPart "a.$.v" = true ∧ headOf "a.$.v" = "a" ∧ (dkeys exDoc).Nodup ∧ (dkeys gs).Nodup ∧
+    dget "a" exDoc = dget "a" gs ∧
+    okIs (applyUpdate (.doc [("a.k", .int 2)]) (.doc [("$inc", .doc [("a.$.v", .int 3)])]) .null false (.doc gs))
+      (.doc [("a", .arr [.doc [("k", .int 1), ("v", .int 0)], .doc [("k", .int 2), ("v", .int 3)],
+        .doc [("k", .int 2), ("v", .int 5)]]), ("_id", .int 2), ("z", .arr [])]) = true := by
+  decide +kernel
+
 /-! #### the rule without its domain: false of the code -/
 
 /-- the full-strength statement: whatever the query, `{$set: {"f.$.x": v}}` on a document whose
@@ -887,6 +922,34 @@ example :
     (match applyUpdate (.doc [("a.k", .int 2)]) (.doc [("$set", .doc [("a.$.c.y", .int 3)])])
         .null false (.doc exDoc) with
      | .error .keyErr => true | _ => false) = true := by
+  decide +kernel
+
+/-- `positional-fam-filter-lost`: `find_one_and_update` hands `{_id: <target>}` to the update, so
+    the positional path never sees the caller's condition `{a.k: 2}`: it writes into the FIRST
+    element, where `update_one` with the same arguments writes into the second -/
+example :
+    let c : Coll := { docs := [(.int 1, .doc exDoc)] }
+    let q : Val := .doc [("a.k", .int 2)]
+    let u : Val := .doc [("$set", .doc [("a.$.v", .int 9)])]
+    (match findAndModify {} 0 c q .null (some u) false none true with
+     | (_, .ok (some d)) => d == .doc [("_id", .int 1), ("a", .arr [.doc [("k", .int 1), ("v", .int 9)],
+         .doc [("k", .int 2), ("v", .int 0)], .doc [("k", .int 2), ("v", .int 5)]]), ("c", .int 1)]
+     | _ => false) = true ∧
+    (match applyUpdateColl {} 0 c q u false false with
+     | (c', .ok _) => c'.docs.map (·.2) == [.doc [("_id", .int 1), ("a", .arr [.doc [("k", .int 1), ("v", .int 0)],
+         .doc [("k", .int 2), ("v", .int 9)], .doc [("k", .int 2), ("v", .int 5)]]), ("c", .int 1)]]
+     | _ => false) = true := by
+  decide +kernel
+
+/-- `$[]` / `$[id]` (all elements / `array_filters`, which the callers refuse with
+    NotImplementedError): such a component is no `$` for the walk, it is looked up as a key and the
+    update fails (TypeError: a list is indexed by a string) — loudly, never a partial write; two
+    `$` in one path (nested arrays) re-use the same narrowed condition for the inner array -/
+example :
+    (match applyUpdate (.doc [("a.k", .int 2)]) (.doc [("$set", .doc [("a.$[].v", .int 9)])]) .null false (.doc exDoc) with
+     | .error .typeErr => true | _ => false) = true ∧
+    (match applyUpdate (.doc [("a.k", .int 2)]) (.doc [("$set", .doc [("a.$[e].v", .int 9)])]) .null false (.doc exDoc) with
+     | .error .typeErr => true | _ => false) = true := by
   decide +kernel
 
 end MongoModel.Props.C02
